@@ -27,9 +27,10 @@ CONSTANTS Devs          \* enabled deviations (subset of AllDevs); {} = the prop
 DevGate   == "Dev_C16_SizeGate"           \* HAMT->basic evaluated only if sizeChange+delta < 0
 DevAddThr == "Dev_C16_AddDropsThreshold"  \* HAMT->basic inside AddChild loses hamtShardingSize
 DevZero   == "Dev_C16_ZeroThrDisabled"    \* threshold 0 short-circuits MaxLinks in Disabled mode
-DevOpSize == "Dev_C16_OpSizeName"         \* HAMT op-size ignores the new name / counts the hash prefix
+DevNewName == "Dev_C16_OpSizeNewName"     \* HAMT op-size counts the entry to add without its name
+DevPrefix == "Dev_C16_OpSizePrefix"       \* HAMT op-size counts the old link with its slot prefix
 DevReload == "Dev_C15_ReloadLinkCount"    \* totalLinks of a reloaded HAMT = links of the root shard
-AllDevs   == {DevGate, DevAddThr, DevZero, DevOpSize, DevReload}
+AllDevs   == {DevGate, DevAddThr, DevZero, DevNewName, DevPrefix, DevReload}
 
 VARIABLES
   w,        \* world: [len : name -> bytes, h : name -> hash digits, cidLen, tsize : target -> Nat]
@@ -140,12 +141,20 @@ MaxOK(e)    == set.maxLinks = 0 \/ Count(e) <= set.maxLinks
 \* size delta of the operation as needsToSwitchToBasicDir means to compute it (units of the mode)
 Delta(n, t) == (IF t = NoT THEN 0 ELSE LinkSz(set.est, n, t))
                - (IF Present(n) THEN LinkSz(set.est, n, entries[n]) ELSE 0)
-\* DevOpSize: what the computation really leaves out / adds: the link built from the new node has
-\* no name; the old link may still carry the PadLen-character slot prefix in its name.
+\* The two op-size deviations: the link built from the node to add has no name (DevNewName); the
+\* old link may still carry the PadLen-character slot prefix in its name (DevPrefix).  Each makes the
+\* computed delta smaller than Delta by the "slack" below.
 SlackNew(n, t) == LinkSz(set.est, n, t) - LinkSzBy(set.est, 0, t)
 SlackOld(n)    == LinkSzBy(set.est, w.len[n] + PadLen, entries[n]) - LinkSz(set.est, n, entries[n])
-Slacks(n, t)   == IF t = NoT THEN {SlackOld(n)}
-                  ELSE IF Present(n) THEN {SlackNew(n, t), SlackNew(n, t) + SlackOld(n)} ELSE {SlackNew(n, t)}
+\* candidate explanations, smallest set of deviations first
+SlackCands(n, t) ==
+  LET new == t # NoT /\ DevNewName \in Devs
+      old == Present(n) /\ DevPrefix \in Devs
+  IN << [ok |-> new, s |-> IF t # NoT THEN SlackNew(n, t) ELSE 0, d |-> {DevNewName}],
+        [ok |-> old, s |-> IF Present(n) THEN SlackOld(n) ELSE 0, d |-> {DevPrefix}],
+        [ok |-> new /\ old, s |-> (IF t # NoT THEN SlackNew(n, t) ELSE 0) + (IF Present(n) THEN SlackOld(n) ELSE 0),
+         d |-> {DevNewName, DevPrefix}] >>
+MaxSlack(n, t) == (IF t # NoT THEN SlackNew(n, t) ELSE 0) + (IF Present(n) THEN SlackOld(n) ELSE 0)
 
 TrieAfterAdd(n) == IF Present(n) THEN trie ELSE TrieInsert(trie, n)
 
@@ -174,12 +183,14 @@ DynHamtOp(n, t) ==
       tr2     == IF t = NoT THEN TrieRemove(trie, n) ELSE TrieAfterAdd(n)
       toBasic == CritOn /\ ~ShouldShard(e2)
       newTL   == bk.tl + (IF t = NoT THEN 0 ELSE 1) - (IF Present(n) THEN 1 ELSE 0)
-      opSize(thrLost) ==        \* DevOpSize: believed below the threshold although it is not
-          /\ DevOpSize \in Devs /\ ~toBasic /\ SizeOn /\ MaxOK(e2)
-          /\ \E s \in Slacks(n, t) : /\ EstSizeBy(set.est, e2) - s <= EffThr
-                                     /\ bk.sc + Delta(n, t) - s < 0
-          /\ Out(e2, "basic", IF thrLost THEN [set EXCEPT !.thr = 0] ELSE set, EmptyTrie, "",
-                 {DevOpSize} \cup IF thrLost THEN {DevAddThr} ELSE {})
+      fits(x) == EstSizeBy(set.est, e2) - x <= EffThr /\ bk.sc + Delta(n, t) - x < 0
+      cands   == SlackCands(n, t)
+      okIdx   == {i \in 1..3 : cands[i].ok /\ fits(cands[i].s)}
+      opSize(thrLost) ==        \* believed below the threshold although it is not
+          /\ ~toBasic /\ SizeOn /\ MaxOK(e2) /\ okIdx # {}
+          /\ LET c == cands[CHOOSE i \in okIdx : \A j \in okIdx : i <= j]
+             IN Out(e2, "basic", IF thrLost THEN [set EXCEPT !.thr = 0] ELSE set, EmptyTrie, "",
+                    c.d \cup IF thrLost THEN {DevAddThr} ELSE {})
   IN \/ toBasic  /\ Out(e2, "basic", set, EmptyTrie, "", {})
      \/ ~toBasic /\ Out(e2, "hamt", set, tr2, "", {})
      \/ /\ DevGate \in Devs /\ toBasic /\ set.est # "disabled"
@@ -191,7 +202,7 @@ DynHamtOp(n, t) ==
      \/ DevAddThr \in Devs /\ t # NoT /\ set.thr > 0 /\ opSize(TRUE)
      \/ /\ DevReload \in Devs /\ set.maxLinks > 0 /\ bk.tl < Count(entries)
         /\ newTL <= set.maxLinks /\ Count(e2) > set.maxLinks
-        /\ set.est = "disabled" \/ \E s \in Slacks(n, t) \cup {0} : EstSizeBy(set.est, e2) - s <= EffThr
+        /\ set.est = "disabled" \/ EstSizeBy(set.est, e2) - MaxSlack(n, t) <= EffThr
         /\ Same("maxLinks", {DevReload})     \* conversion started on the wrong count, copy hits the limit
 
 AddCore(n, t) == CASE cfg.kind = "basic" -> BasicAdd(n, t)
@@ -302,4 +313,6 @@ MCCfgs(ww) == {c \in [kind : Kinds, est : Ests, gthr : {0, 9, 1000}, thr : {0, 8
                       width : {8}, stat : {"none"}, cb : {"v0"}] :
                  /\ c.est # "disabled" => c.gthr > 0
                  /\ c.kind # "dynamic" => c.thr = 0 /\ c.gthr = 1000 /\ c.est = "links"}
+\* C15 alone: all kinds, one threshold, no per-directory value
+MCCfgsMap(ww) == {c \in MCCfgs(ww) : c.thr = 0 /\ c.gthr \in {9, 1000} /\ c.est # "block"}
 =============================================================================
